@@ -1468,6 +1468,19 @@ def baseline_body(qualname):
             if body and isinstance(body[0], ast.Expr) and isinstance(body[0].value, ast.Constant) and isinstance(body[0].value.value, str):
                 body = body[1:]
             return "\n".join(ast.unparse(x) for x in body)
+    # a nested function: look it up inside its enclosing function's confirmed source
+    if "." in qualname:
+        outer, inner = qualname.rsplit(".", 1)
+        for mod, funcs in store.items():
+            if outer in funcs:
+                text = funcs[outer][0]["text"]
+                tree = ast.parse("if True:\n" + text if text[:1] in (" ", "\t") else text)
+                for n in ast.walk(tree):
+                    if isinstance(n, (ast.FunctionDef, ast.AsyncFunctionDef)) and n.name == inner and n is not tree.body[0]:
+                        body = n.body
+                        if body and isinstance(body[0], ast.Expr) and isinstance(body[0].value, ast.Constant) and isinstance(body[0].value.value, str):
+                            body = body[1:]
+                        return "\n".join(ast.unparse(x) for x in body)
     raise AnalysisError("E11", qualname, "no confirmed baseline source for this function")
 
 
